@@ -6,7 +6,7 @@ from vlib import cbool, clist
 
 ID = "C09"
 PROPERTIES_V = ["theories/Properties/C09.v"]
-MAKE_TARGETS = ["theories/Properties/C09.vo", "theories/Model/C09Cases.vo"]
+MAKE_TARGETS = ["theories/Properties/C09.vo", "theories/Model/C09Cases.vo", "theories/Model/C20Cases.vo"]
 HARNESS = "c09"
 CASES_IMPORTS = ("From Coq Require Import NArith List Uint63.\n"
                  "From Verif Require Import Base.Bytes Model.TreeStore Model.GlobalIndex Model.Commitment Model.ClaimProofs Model.C09Cases.")
@@ -239,3 +239,10 @@ LEVEL_NOTE = ("Outside the quantifier (reported, not a violation): the PP flow n
               "generated Keccak-256, SQLite / meddler below the stores.")
 TECHNIQUE = ("Coq proof (composition of the flow's steps with the C08 proof-verification invariant, byte-level hash layouts) generic in the "
              "hash + differential correspondence via vm_compute with real Keccak-256 on the real PP flow, querier and stores")
+
+
+def extra_checks(chk):
+    """second part: the claim records (proofs, exit roots, global index of the matching call) the imported bridge exits are built from:
+    C20's harness stream judged by C20's predicates, reported under C09 (see c03_claims.py)"""
+    import c03_claims
+    c03_claims.run_part(chk)
